@@ -1,6 +1,6 @@
 (* C14: what the shared-array operations leave in the array, who may write, and the life cycle of the attached
    communicators.  The statements are about C14/ShmemModel.v. *)
-From Coq Require Import ZArith Arith List Bool PeanoNat Lia.
+From Coq Require Import ZArith Arith List Bool PeanoNat Lia Permutation.
 From ScV Require Import Base.CInt C14.ShmemModel C14.GridProofs.
 Import ListNotations.
 
@@ -484,3 +484,222 @@ Proof.
   destruct (comms (writer_of comms f r)) as [nc|] eqn:E; [|reflexivity]. specialize (H eq_refl nc eq_refl).
   destruct (inter nc) as [|q t]; [congruence|]. cbn [forallb]. unfold node_buffer at 1. destruct (comms q); [rewrite C|]; reflexivity.
 Qed.
+
+(* ---- histories of attach / detach / dup / free: the division in force, and no communicator is leaked ------------------------- *)
+Section HistoryProofs.
+  Variable D : Type.
+  Notation hstate := (hstate D). Notation hop := (hop D).
+  Definition ids (o : option (nat * nat * D)) : list nat := match o with Some (a, b, _) => [a; b] | None => [] end.
+
+  Lemma NoDup_remove_dec (l : list nat) y : NoDup l -> NoDup (remove Nat.eq_dec y l).
+  Proof.
+    induction 1 as [|x l Hx Hn IH]; cbn [remove]; [constructor|]. destruct (Nat.eq_dec y x); [exact IH|].
+    constructor; [|exact IH]. intros X. apply in_remove in X. tauto.
+  Qed.
+  Lemma in_remove_iff (l : list nat) x y : In x (remove Nat.eq_dec y l) <-> In x l /\ x <> y.
+  Proof. split; [apply in_remove|intros [A B]; apply in_in_remove; assumption]. Qed.
+  Lemma in_release o (l : list nat) x : In x (release D o l) <-> In x l /\ ~ In x (ids o).
+  Proof.
+    destruct o as [[[a b] d]|]; cbn [release ids]; [|cbn; tauto]. rewrite !in_remove_iff. cbn [In]. intuition congruence.
+  Qed.
+  Lemma NoDup_release o (l : list nat) : NoDup l -> NoDup (release D o l).
+  Proof. destruct o as [[[a b] d]|]; cbn [release]; [|tauto]. intros H. apply NoDup_remove_dec, NoDup_remove_dec, H. Qed.
+
+  Lemma NoDup_app_comm_fix (l1 l2 : list nat) : NoDup l1 -> NoDup l2 -> (forall x, In x l1 -> In x l2 -> False) -> NoDup (l1 ++ l2).
+  Proof.
+    intros N1 N2 Hd. induction N1 as [|x l Hx N IH]; cbn; [exact N2|]. constructor.
+    - rewrite in_app_iff. intros [A|A]; [tauto|]. apply (Hd x); [left; reflexivity|exact A].
+    - apply IH. intros y A B. apply (Hd y); [right; exact A|exact B].
+  Qed.
+
+  Record HInv (s : hstate) : Prop := mk_HInv {
+    H_fresh : forall x, In x (h_live D s) -> x < h_next D s;
+    H_nodup : NoDup (h_live D s);
+    H_live : forall x, In x (h_live D s) <-> exists c, In x (ids (h_attr D s c));
+    H_ids : forall c, NoDup (ids (h_attr D s c));
+    H_disj : forall c c' x, c <> c' -> In x (ids (h_attr D s c)) -> In x (ids (h_attr D s c')) -> False;
+    H_none : forall c, h_valid D s c = false -> h_attr D s c = None
+  }.
+
+  Lemma HInv_init : HInv hinit.
+  Proof. constructor; cbn; intros; try reflexivity; try (now constructor); try tauto. split; [tauto|intros [c []]]. Qed.
+
+  Lemma valid_cases s c : h_valid D s c = true -> c = 0 \/ (c = 1 /\ h_dup D s = true).
+  Proof.
+    unfold h_valid. destruct (Nat.eqb_spec c 0) as [E|E]; [left; exact E|]. destruct (Nat.eqb_spec c 1) as [E1|E1]; cbn; [intros X; right; split; assumption|discriminate].
+  Qed.
+
+  Lemma hupd_same {B} (f : nat -> B) i v : upd f i v i = v.
+  Proof. unfold upd. rewrite Nat.eqb_refl. reflexivity. Qed.
+  Lemma hupd_other {B} (f : nat -> B) i v j : j <> i -> upd f i v j = f j.
+  Proof. intros H. unfold upd. destruct (j =? i) eqn:E; [apply Nat.eqb_eq in E; contradiction|reflexivity]. Qed.
+
+  (* the pair of communicator c is replaced by a new pair, or by nothing *)
+  Lemma HInv_replace (s : hstate) c newp live' next' dup' :
+    HInv s ->
+    (forall c', h_valid D (mk_hs D live' next' (upd (h_attr D s) c newp) dup') c' = false -> upd (h_attr D s) c newp c' = None) ->
+    h_next D s <= next' -> (forall x, In x (ids newp) -> h_next D s <= x < next') -> NoDup (ids newp) ->
+    (forall x, In x live' <-> (In x (h_live D s) /\ ~ In x (ids (h_attr D s c))) \/ In x (ids newp)) -> NoDup live' ->
+    HInv (mk_hs D live' next' (upd (h_attr D s) c newp) dup').
+  Proof.
+    intros I Hn Hle Hnew Hnd Hl Hnl.
+    assert (Old : forall c' x, In x (ids (h_attr D s c')) -> x < h_next D s)
+      by (intros c' x Hx; apply (H_fresh _ I), (H_live _ I); exists c'; exact Hx).
+    constructor; cbn [h_live h_next h_attr h_dup].
+    - intros x Hx. apply Hl in Hx. destruct Hx as [[Hx _]|Hx]; [pose proof (H_fresh _ I x Hx); lia|apply Hnew in Hx; lia].
+    - exact Hnl.
+    - intros x. rewrite Hl, (H_live _ I x). split.
+      + intros [[[c' A] B]|A]; [|exists c; rewrite hupd_same; exact A].
+        exists c'. destruct (Nat.eq_dec c' c) as [->|N]; [contradiction|]. rewrite hupd_other by exact N. exact A.
+      + intros [c' A]. destruct (Nat.eq_dec c' c) as [->|N]; [rewrite hupd_same in A; right; exact A|].
+        rewrite hupd_other in A by exact N. left. split; [exists c'; exact A|]. intros B. exact (H_disj _ I c' c x N A B).
+    - intros c'. destruct (Nat.eq_dec c' c) as [->|N]; [rewrite hupd_same; exact Hnd|rewrite hupd_other by exact N; apply (H_ids _ I)].
+    - intros c1 c2 x N A B.
+      destruct (Nat.eq_dec c1 c) as [->|N1]; destruct (Nat.eq_dec c2 c) as [->|N2]; try contradiction.
+      + rewrite hupd_same in A. rewrite hupd_other in B by exact N2. apply Hnew in A. pose proof (Old c2 x B). lia.
+      + rewrite hupd_same in B. rewrite hupd_other in A by exact N1. apply Hnew in B. pose proof (Old c1 x A). lia.
+      + rewrite hupd_other in A by exact N1. rewrite hupd_other in B by exact N2. exact (H_disj _ I c1 c2 x N A B).
+    - exact Hn.
+  Qed.
+
+  Lemma valid_dup_indep s live' next' attr' c : h_valid D (mk_hs D live' next' attr' (h_dup D s)) c = h_valid D s c.
+  Proof. reflexivity. Qed.
+
+  Lemma HInv_step s o s' : HInv s -> hstep D s o = Some s' -> HInv s'.
+  Proof.
+    intros I H. destruct o as [c [d|]|c| |]; cbn [hstep] in H.
+    - (* attach *)
+      destruct (h_valid D s c) eqn:V; [|discriminate]. injection H as <-.
+      set (a := h_next D s).
+      assert (Fa : forall x, In x (h_live D s) -> x <> a /\ x <> S a) by (intros x Hx; pose proof (H_fresh _ I x Hx); unfold a; lia).
+      assert (Fo : forall x, In x (ids (h_attr D s c)) -> x <> a /\ x <> S a) by (intros x Hx; apply Fa, (H_live _ I); exists c; exact Hx).
+      apply HInv_replace; try assumption.
+      + intros c' V'. rewrite valid_dup_indep in V'. rewrite hupd_other by (intros ->; congruence). exact (H_none _ I c' V').
+      + lia.
+      + cbn [ids In]. intros x [<-|[<-|[]]]; fold a; lia.
+      + cbn [ids]. constructor; [cbn; lia|constructor; [tauto|constructor]].
+      + intros x. rewrite in_release. cbn [In ids]. split.
+        * intros [[<-|[<-|A]] B]; tauto.
+        * intros [[A B]|[<-|[<-|[]]]]; [tauto| |]; (split; [tauto|]); intros B; apply Fo in B; lia.
+      + apply NoDup_release. constructor; [cbn; intros [A|A]; [lia|apply Fa in A; tauto]|].
+        constructor; [intros A; apply Fa in A; tauto|exact (H_nodup _ I)].
+    - (* attach refused: MPI_Comm_split_type gave unequal nodes *)
+      destruct (h_valid D s c) eqn:V; [|discriminate]. injection H as <-.
+      assert (E : remove Nat.eq_dec (h_next D s) (h_next D s :: h_live D s) = h_live D s).
+      { cbn [remove]. destruct (Nat.eq_dec (h_next D s) (h_next D s)); [|contradiction]. apply notin_remove.
+        intros A. pose proof (H_fresh _ I _ A). lia. }
+      cbn [remove] in E. rewrite E. constructor; cbn [h_live h_next h_attr h_dup];
+        [intros x Hx; pose proof (H_fresh _ I x Hx); lia|exact (H_nodup _ I)|exact (H_live _ I)|exact (H_ids _ I)|exact (H_disj _ I)|exact (H_none _ I)].
+    - (* detach *)
+      destruct (h_valid D s c) eqn:V; [|discriminate]. injection H as <-.
+      apply HInv_replace; try assumption.
+      + intros c' V'. rewrite valid_dup_indep in V'. rewrite hupd_other by (intros ->; congruence). exact (H_none _ I c' V').
+      + lia.
+      + cbn. tauto.
+      + constructor.
+      + intros x. rewrite in_release. cbn [ids In]. tauto.
+      + apply NoDup_release, (H_nodup _ I).
+    - (* dup *)
+      destruct (h_dup D s) eqn:Du; [discriminate|].
+      assert (A1 : h_attr D s 1 = None) by (apply (H_none _ I); unfold h_valid; rewrite Du; reflexivity).
+      assert (Nn : forall c', h_valid D s c' = false -> c' <> 0) by (intros c' V ->; discriminate V).
+      destruct (h_attr D s 0) as [[[a0 b0] d]|] eqn:A0; injection H as <-.
+      + set (a := h_next D s).
+        assert (Fa : forall x, In x (h_live D s) -> x <> a /\ x <> S a) by (intros x Hx; pose proof (H_fresh _ I x Hx); unfold a; lia).
+        apply HInv_replace; try assumption.
+        * intros c' V'. unfold h_valid in V'. cbn [h_dup] in V'. rewrite andb_true_r in V'. apply orb_false_iff in V'. destruct V' as [V0 V1].
+          apply Nat.eqb_neq in V0, V1. rewrite hupd_other by exact V1. apply (H_none _ I). unfold h_valid. rewrite Du, andb_false_r, orb_false_r. apply Nat.eqb_neq. exact V0.
+        * lia.
+        * cbn [ids In]. intros x [<-|[<-|[]]]; fold a; lia.
+        * cbn [ids]. constructor; [cbn; lia|constructor; [tauto|constructor]].
+        * intros x. rewrite A1. cbn [In ids]. tauto.
+        * constructor; [cbn; intros [A|A]; [lia|apply Fa in A; tauto]|]. constructor; [intros A; apply Fa in A; tauto|exact (H_nodup _ I)].
+      + apply HInv_replace; try assumption.
+        * intros c' V'. unfold h_valid in V'. cbn [h_dup] in V'. rewrite andb_true_r in V'. apply orb_false_iff in V'. destruct V' as [V0 V1].
+          apply Nat.eqb_neq in V0, V1. rewrite hupd_other by exact V1. apply (H_none _ I). unfold h_valid. rewrite Du, andb_false_r, orb_false_r. apply Nat.eqb_neq. exact V0.
+        * lia.
+        * cbn. tauto.
+        * constructor.
+        * intros x. rewrite A1. cbn [In ids]. tauto.
+        * exact (H_nodup _ I).
+    - (* free of the duplicate *)
+      destruct (h_dup D s) eqn:Du; [|discriminate]. injection H as <-.
+      apply HInv_replace; try assumption.
+      + intros c' V'. destruct (Nat.eq_dec c' 1) as [->|N]; [apply hupd_same|]. rewrite hupd_other by exact N. apply (H_none _ I).
+        unfold h_valid in *. cbn [h_dup] in V'. rewrite andb_false_r, orb_false_r in V'. rewrite V'. cbn [orb]. apply andb_false_iff. left. apply Nat.eqb_neq. exact N.
+      + lia.
+      + cbn. tauto.
+      + constructor.
+      + intros x. rewrite in_release. cbn [ids In]. tauto.
+      + apply NoDup_release, (H_nodup _ I).
+  Qed.
+
+  Lemma HInv_run h : forall s s', HInv s -> hrun D s h = Some s' -> HInv s'.
+  Proof.
+    induction h as [|o t IH]; intros s s' I H; cbn [hrun] in H; [injection H as <-; exact I|].
+    destruct (hstep D s o) as [s1|] eqn:E; [|discriminate]. exact (IH _ _ (HInv_step _ _ _ I E) H).
+  Qed.
+
+  (* the division carried by the attribute is the one of the id-free specification, step by step *)
+  Lemma division_step s o s' : hstep D s o = Some s' -> forall c, h_division D s' c = dstep D (h_division D s) o c.
+  Proof.
+    intros H c'. destruct o as [c [d|]|c| |]; cbn [hstep dstep] in *.
+    - destruct (h_valid D s c); [|discriminate]. injection H as <-. unfold h_division. cbn [h_attr]. unfold upd. destruct (c' =? c); reflexivity.
+    - destruct (h_valid D s c); [|discriminate]. injection H as <-. reflexivity.
+    - destruct (h_valid D s c); [|discriminate]. injection H as <-. unfold h_division. cbn [h_attr]. unfold upd. destruct (c' =? c); reflexivity.
+    - destruct (h_dup D s); [discriminate|]. unfold h_division. destruct (h_attr D s 0) as [[[a0 b0] d]|] eqn:A0; injection H as <-;
+        cbn [h_attr]; unfold upd; destruct (c' =? 1); reflexivity.
+    - destruct (h_dup D s); [|discriminate]. injection H as <-. unfold h_division. cbn [h_attr]. unfold upd. destruct (c' =? 1); reflexivity.
+  Qed.
+
+  Lemma division_run h : forall s s', hrun D s h = Some s' -> forall c, h_division D s' c = fold_left (dstep D) h (h_division D s) c.
+  Proof.
+    induction h as [|o t IH]; intros s s' H c; cbn [hrun fold_left] in *; [injection H as <-; reflexivity|].
+    destruct (hstep D s o) as [s1|] eqn:E; [|discriminate]. rewrite (IH _ _ H c).
+    assert (X : forall f g, (forall c, f c = g c) -> forall c, fold_left (dstep D) t f c = fold_left (dstep D) t g c).
+    { clear. induction t as [|o t IH]; intros f g Hfg c; cbn [fold_left]; [apply Hfg|]. apply IH. intros c0.
+      destruct o as [c1 [d|]|c1| |]; cbn [dstep]; unfold upd; try (destruct (c0 =? c1)); try (destruct (c0 =? 1)); rewrite ?Hfg; reflexivity. }
+    apply X. intros c0. exact (division_step _ _ _ E c0).
+  Qed.
+
+  (* C14_attach_history.  For EVERY history of attach / detach / dup / free accepted by the life cycle:
+     - the division in force on each communicator is the one of the specification `in_force` (the last attach that attached, copied by
+       dup, removed by detach / free; an attach refused for unequal node sizes changes nothing);
+     - the live node communicators are EXACTLY the pairs realising the divisions in force, all distinct: what a replaced or detached
+       division used is released, nothing else is *)
+  Theorem attach_history h s : hrun D hinit h = Some s ->
+    (forall c, h_division D s c = in_force D h c) /\
+    NoDup (h_live D s) /\
+    (forall x, In x (h_live D s) <-> exists c a b d, h_attr D s c = Some (a, b, d) /\ (x = a \/ x = b)) /\
+    (forall c a b d, h_attr D s c = Some (a, b, d) -> a <> b /\ (c = 0 \/ c = 1 /\ h_dup D s = true)) /\
+    length (h_live D s) = 2 * (length (filter (fun c => match h_attr D s c with Some _ => true | None => false end) [0; 1])).
+  Proof.
+    intros H. pose proof (HInv_run h _ _ HInv_init H) as I. split; [|split; [|split; [|split]]].
+    - intros c. rewrite (division_run h _ _ H c). reflexivity.
+    - exact (H_nodup _ I).
+    - intros x. rewrite (H_live _ I x). split.
+      + intros [c A]. destruct (h_attr D s c) as [[[a b] d]|] eqn:E; [|contradiction]. exists c, a, b, d. cbn in A. intuition congruence.
+      + intros (c & a & b & d & E & A). exists c. rewrite E. cbn. intuition congruence.
+    - intros c a b d E. split.
+      + pose proof (H_ids _ I c) as N. rewrite E in N. cbn in N. inversion N as [|? ? X _]. cbn in X. intuition congruence.
+      + destruct (h_valid D s c) eqn:V; [exact (valid_cases _ _ V)|]. rewrite (H_none _ I c V) in E. discriminate.
+    - assert (P : Permutation (h_live D s) (ids (h_attr D s 0) ++ ids (h_attr D s 1))).
+      { apply NoDup_Permutation; [exact (H_nodup _ I)| |].
+        - apply NoDup_app_comm_fix; [apply (H_ids _ I)|apply (H_ids _ I)|]. intros x A B. exact (H_disj _ I 0 1 x ltac:(discriminate) A B).
+        - intros x. rewrite (H_live _ I x), in_app_iff. split; [|intros [A|A]; [exists 0|exists 1]; exact A].
+          intros [c A]. destruct c as [|[|c]]; [tauto|tauto|]. rewrite (H_none _ I (S (S c))) in A by reflexivity. contradiction. }
+      rewrite (Permutation_length P), app_length. cbn [filter].
+      destruct (h_attr D s 0) as [[[? ?] ?]|]; destruct (h_attr D s 1) as [[[? ?] ?]|]; reflexivity.
+  Qed.
+
+  (* in particular: after an attach that attaches, its division is in force, whatever happened before *)
+  Corollary last_attach_in_force h c d s : hrun D hinit (h ++ [HAttach D c (Some d)]) = Some s -> h_division D s c = Some d.
+  Proof.
+    intros H. destruct (attach_history _ _ H) as [E _]. rewrite E. unfold in_force. rewrite fold_left_app. cbn [fold_left dstep]. apply hupd_same.
+  Qed.
+  (* and after detach / free of everything nothing is left *)
+  Corollary history_no_leak h s : hrun D hinit h = Some s -> h_attr D s 0 = None -> h_attr D s 1 = None -> h_live D s = [].
+  Proof.
+    intros H A0 A1. destruct (attach_history _ _ H) as (_ & _ & _ & _ & L). cbn [filter] in L. rewrite A0, A1 in L. cbn in L. destruct (h_live D s); [reflexivity|discriminate].
+  Qed.
+End HistoryProofs.
